@@ -225,6 +225,17 @@ def check_c19(tier, replay):
                               SESS_ASSUME, mc_cfgs="frame", extra_stage=c19_stage)
 
 
+def c15_stage(v, scr, th):
+    """The strict form (also sessions never handed out by Accept are released) must still be refuted by TLC on the model of the
+    pinned code: it is the model-level form of the listed known finding C15/NoLeak_BacklogSession."""
+    r = vlib.run_tlc(scr, "Lifecycle", "Lifecycle_known.cfg", timeout=600)
+    if r.ok:
+        raise MachineryError("Lifecycle_known.cfg: ReleasedAll holds -- the model no longer shows the backlog-session leak")
+    if r.violation in ("error", None):
+        raise MachineryError("Lifecycle_known.cfg: TLC error\n" + r.out[-2000:])
+    v.notes.setdefault("tlc_runs", []).append(dict(label="Lifecycle_known.cfg (must be refuted: ReleasedAll)", **r.summary()))
+
+
 def check_c15(tier, replay):
     inv = ["C15_NoLeak", "C15_NoLeak_BacklogSession", "C15_PoolOwnership", "C13_AfterClose"]
     return generic_sess_check("C15", tier, replay, "model_checking", inv, "TestSessTransfer$", ("sess_transfer",),
@@ -232,9 +243,11 @@ def check_c15(tier, replay):
                               RULE_TRANSFER + "; every run ends by closing client, accepted session, listener and transport in a seeded order "
                               "(half of the runs in the middle of the transfer); 12 virtual seconds later no goroutine with a kcp-go frame "
                               "may remain in the bubble; the pool sanitizer (verif tag) tracks every Get/Put: a second Put of the same "
-                              "acquisition or a write into a recycled (poisoned, quarantined) buffer is an anomaly",
+                              "acquisition or a write into a recycled (poisoned, quarantined) buffer is an anomaly; in a quarter of the mid-transfer runs "
+                              "the output is paced (SetRateLimit) so that packets wait in the post-processing queue when Close comes, in half of them "
+                              "the transports start failing writes shortly before; every fifth run uses sessions / listeners that own their transport",
                               SESS_ASSUME + ["buffers still owned when a session is dropped are left to the garbage collector (not an ownership violation)"],
-                              mc_cfgs=(("Lifecycle", "Lifecycle_mc.cfg"),))
+                              mc_cfgs=(("Lifecycle", "Lifecycle_mc.cfg"), ("Lifecycle", "Lifecycle_mc_owned.cfg")), extra_stage=c15_stage)
 
 
 def check_c06(tier, replay):
